@@ -548,9 +548,10 @@ theorem disconnected_final_fails_reopened_sender :
 
 /-! ## Non-vacuity -/
 
-/-- non-vacuity: a complete life cycle with wrap-around ends in a teardown that drops 0,1,2 once each -/
+/-- non-vacuity: a complete life cycle with wrap-around ends in a teardown after which the indices 0, 1, 2 have each been dropped once
+(0 by the overwrite of its slot, 2 and 1 by `Slot::drop` of slots 0 and 1) -/
 example : ((runOps (init 2) [(0, .send 7), (0, .recv 0 .try none), (0, .send 8), (0, .recv 0 .try none), (0, .send 9),
-      (0, .rDrop 0), (0, .sDrop)]).bind stepTeardown).map (fun s => (s.dropped, s.sent)) = some ([0, 1, 2], [7, 8, 9]) := by
+      (0, .rDrop 0), (0, .sDrop)]).bind stepTeardown).map (fun s => (s.dropped, s.sent)) = some ([0, 2, 1], [7, 8, 9]) := by
   decide
 
 
